@@ -12,15 +12,27 @@ Oracle (direct reading of the property on what clients and the disk seam can see
   * eviction order at the disk seam: once-read (created asc), many-read (last read asc), never-read (created desc), and not
     more victims than needed;
   * reachability: at the end of every history a patient client (retry allocate; let the disk jobs finish) is granted
-    any allocation that fits next to what cannot be evicted -- `wait` forever is a failure.
-Correspondence: every op list (incl. the epilogue) is evaluated by the Coq model and compared output by output."""
+    any allocation that fits next to what cannot be evicted -- `wait` forever is a failure; and no request handler, no half of a
+    disk job and no callback may block: the whole history runs in a watched thread (shm_common.Driver.run), a call that does not
+    return is the failure `hang-<op>` with the history up to that op as the case.
+Readers are known to the oracle by the position of their granted get, never by the id the store gave them, and the harness does not
+choose or interpret these ids (they are numbered by first appearance): whatever the id scheme, a reader that is open must be
+protected.  Streams: besides the shared ones, `overlap` (many overlapping readers of one key closed in every order, then pressure or
+purge) and `faults` (disk faults at every job step with requests in between).
+Correspondence: every op list (incl. the epilogue) is evaluated by the Coq model and compared output by output; the model validates
+the reader id that was handed out (it must not be the id of an ongoing read) instead of predicting it."""
 import itertools
 
 import shm_common as S
 from common import coq_results, load_findings
 
 TRUSTED = [
-    "harness/shm_common.py + harness/fakes/shm_fakes.py (see C08): in-memory SharedMemory/open registry, manual executor, scripted clock/uuid4/UDP socket",
+    "harness/shm_common.py + harness/fakes/shm_fakes.py (see C08): in-memory SharedMemory/open registry, manual executor, scripted clock/UDP socket; "
+    "uuid.uuid4 is scripted only where the implementation still draws reader ids from it (to force collisions with ids of ongoing reads); reader ids are "
+    "taken from the responses and numbered by first appearance",
+    "hang detection: plain-Lock attributes of the Manager are wrapped from outside (a blocking acquire by the thread that holds the lock is reported at once "
+    "instead of blocking); any other blocking call is decided by a watchdog (no progress while every thread of the history sleeps in the kernel at the same "
+    "instruction, read from /proc/self/task/*/stat and sys._current_frames)",
     "the oracle's own bookkeeping of generations, writers' closes and granted readers is derived from the requests and responses only",
 ]
 ASSUMPTIONS = [
@@ -35,6 +47,11 @@ ASSUMPTIONS = [
     "reachability is proved as: the pageout lock is held exactly while a page-out job is pending (every history, no side condition), a waiting request with an "
     "evictable candidate and a free lock issues a page-out, a successful page-out credits its size (C08); that the thread pool eventually runs every "
     "job (fairness) is assumed, and 'eventually granted' itself is checked on the implementation by the patient-client epilogue, not proved",
+    "C09_handlers_never_block: pageout_one is the only blocking primitive of the store and every section under it is straight-line code, so the only way "
+    "to block for ever is a thread taking it twice; the events of Shm/ManagerLocks.v are compared with those seen on Manager.pageout_one where that attribute "
+    "is a plain lock (informative: histogram lock-events:*), the absence of hangs itself is decided on the implementation by the watchdog",
+    "C09_reader_table_exact speaks of ids as the store sees them; clients are assumed to close with the id they were given (malformed closes are generated "
+    "too, the oracle then stops tracking that dataset)",
 ]
 
 SIG_READD = "readd-during-pageout"
@@ -45,10 +62,13 @@ class Watch:
     def __init__(self, capacity):
         self.capacity = capacity
         self.bad = []
-        self.gen = {}        # key -> dict(size, created, closed(bytes|None), was_closed, reads[list of times], readers{rd: t}, delayed, wild, evicted_unclosed)
+        self.gen = {}        # key -> dict(size, created, closed(bytes|None), was_closed, reads[list of times], readers{handle: t}, delayed, wild, evicted_unclosed)
+        #                      a reader is known by the position of its granted get (its handle), NOT by the id the server gave it:
+        #                      the oracle must still know who holds what when the store mixes its readers up
         self.tmax = 0
         self.stats = {"granted_gets": 0, "gets_after_disk_roundtrip": 0, "purge_delayed": 0, "delayed_purge_done": 0, "evictions": 0,
-                      "fresh_reader_protected": 0, "roundtrips": 0}
+                      "fresh_reader_protected": 0, "roundtrips": 0, "three_overlapping_readers": 0, "reader_id_shared": 0,
+                      "closed_out_of_order": 0, "pageout_failed_segment_present": 0, "pagein_failed": 0}
         self.roundtrip = set()
 
     def flag(self, d, sig, what, i, op):
@@ -70,9 +90,16 @@ class Watch:
             j = d.board.jobs[op[1]]
             if j.kind == "out" and (j.ok or j.phase == "unlink") and (m.datasets.get(d.key_for(j.shmid)) is not d.job_obj.get(op[1]) or d.job_obj.get(op[1]) is None):
                 d.readd_io = True
+        if k == "io" and ob[1]:
+            j = d.board.jobs[op[1]]
+            if j.ok is False and j.phase == "cb":
+                if j.kind == "out" and j.shmid in d.reg.segs:
+                    self.stats["pageout_failed_segment_present"] = 1    # the page file could not be written: the callback has to purge
+                elif j.kind == "in":
+                    self.stats["pagein_failed"] = 1
         # ---- bookkeeping + checks per request
         if k == "add" and ob[2] == "" and ob[1] is not None:
-            self.gen[op[1]] = {"size": op[2], "created": op[3], "closed": None, "was_closed": False, "reads": [], "readers": {}, "delayed": False,
+            self.gen[op[1]] = {"size": op[2], "created": op[3], "closed": None, "was_closed": False, "reads": [], "readers": {}, "ids": {}, "delayed": False,
                                "wild": False, "evicted_unclosed": False}
         elif k == "write":
             g = self.gen.get(op[1])
@@ -82,7 +109,7 @@ class Watch:
                 if g is not None:
                     g["wild"] = True
                 else:
-                    self.gen[op[1]] = {"size": len(op[2]) // 2, "created": 0, "closed": None, "was_closed": False, "reads": [], "readers": {},
+                    self.gen[op[1]] = {"size": len(op[2]) // 2, "created": 0, "closed": None, "was_closed": False, "reads": [], "readers": {}, "ids": {},
                                        "delayed": False, "wild": True, "evicted_unclosed": False}
         elif k == "close" and ob[1] == "":
             g = self.gen.get(op[1])
@@ -94,7 +121,16 @@ class Watch:
                     if seg is None:
                         g["wild"] = True      # a writer that finished without ever creating its segment: nothing was written
                 else:
-                    g["readers"].pop(op[2], None)
+                    c = d.closing or {}
+                    h = c.get("handle")
+                    if h is not None and h["idx"] in g["readers"]:
+                        if any(x > h["idx"] for x in g["readers"]):
+                            self.stats["closed_out_of_order"] = 1
+                        g["readers"].pop(h["idx"])
+                        g["ids"].pop(h["idx"], None)
+                    elif c.get("rdid") in g["ids"].values():
+                        # a client closing a reader that is not its own (malformed histories): who holds the dataset is no longer known
+                        g["wild"] = True
                     if g["delayed"] and not g["readers"]:
                         # the purge requested during the read takes effect now
                         if op[1] in m.datasets and not g["wild"] and not d.wild_write:
@@ -134,7 +170,12 @@ class Watch:
                     elif g["closed"] is not None and (bytes(seg) != g["closed"] or ob[2] != len(g["closed"])):
                         self.flag(d, "bytes-differ", f"get({key}) exposes {bytes(seg).hex()} (l={ob[2]}), the writer left {g['closed'].hex()}", i, op)
                 g["reads"].append(op[2])
-                g["readers"][ob[3]] = op[2]
+                g["readers"][i] = op[2]
+                g["ids"][i] = next((h["rdid"] for h in d.handles.values() if h["idx"] == i), None)
+                if len(g["readers"]) >= 3:
+                    self.stats["three_overlapping_readers"] = 1
+                if len(set(g["ids"].values())) < len(g["ids"]):
+                    self.stats["reader_id_shared"] = 1
         # ---- jobs issued by this op: eviction order and protection of fresh readers
         outs = [j for j in ob[-1] if j[0] == "out"]
         if outs:
@@ -259,7 +300,7 @@ class Epilogue:
 def evaluate(env, cap, ops, rng=None, with_epilogue=True):
     import random
     w = Watch(cap)
-    ops = list(ops)
+    ops = [list(o) for o in ops]      # the run writes the ids it saw into its own copy
     d = S.Driver(env, cap, ops, w)
     ep = Epilogue(w, rng or random.Random(S.hist_key(cap, ops)))
     if with_epilogue:
@@ -273,7 +314,12 @@ def evaluate(env, cap, ops, rng=None, with_epilogue=True):
         bad.append((sig, f"a patient client asking for {ep.expect[0]} bytes (free {ep.expect[1]}, evictable {ep.expect[2]}) was answered `wait` "
                          f"{ep.rounds} times with all disk jobs completed in between; lock held: {d.m.pageout_all.locked()}, pageout_count {d.m.pageout_count}, "
                          f"datasets {S.snapshot(d.m)}", len(obs) - 1))
-    if crash:
+    if crash and crash[0] == "Hang":
+        # a blocked call is a failure of its own: nothing is granted any more, whatever else is going on in the history
+        kind = ops[crash[2]][0] if crash[2] < len(ops) else "?"
+        bad.insert(0, ("hang-" + kind, f"op {crash[2]}: the store blocked for ever: {crash[1]}; lock events of this op: "
+                       f"{d.lock_log[(d.lock_marks[-1] if d.lock_marks else 0):][-6:]}", crash[2]))
+    elif crash:
         bad.append(("server-crash" if not S.readd_evidence(d) else SIG_READD,
                     f"op {crash[2]}: {crash[0]} left LocalServer.start ({crash[1]})", crash[2]))
     for e in d.events:
@@ -348,6 +394,163 @@ def reader_history(rng):
     return cap, ops
 
 
+def overlap_history(rng):
+    """many overlapping readers of ONE key, granted and closed in every order (first-in-first-out, last-in-first-out, random, the
+    middle one first; double closes), new readers arriving while older ones are open -- then, with some reader still holding the key,
+    memory pressure and/or a purge arrive, the disk jobs complete, and the remaining readers close.  (Readers are told apart by the
+    store through the ids it hands out: however it produces them, a reader that is open must keep its own entry.)"""
+    cap = rng.choice([4, 6, 8, 12])
+    hot = rng.choice(["h", "k0"])
+    size = rng.randrange(1, max(2, cap // 2 + 1))
+    t = [rng.choice([1, 77, 10 ** 6])]
+
+    def tick(big=False):
+        t[0] += (S.STALE + rng.choice([1, 9])) if big else rng.choice([1, 1, 2, 5])
+        return t[0]
+    ops = [["add", hot, size, tick()], ["write", hot, S.payload(rng, size)], ["close", hot, None]]
+    others = []
+    room = cap - size
+    for k in ["o1", "o2"][:rng.choice([0, 1, 1, 2])]:
+        if room < 1:
+            break
+        s_ = rng.randrange(1, room + 1)
+        room -= s_
+        others.append(k)
+        ops += [["add", k, s_, tick()], ["write", k, S.payload(rng, s_)], ["close", k, None]]
+        if rng.random() < 0.4:
+            ops += [["get", k, tick(), [900 + len(others)]], ["close", k, 900 + len(others)]]
+    policy = rng.choice(["fifo", "lifo", "random", "random", "middle", "second"])
+    lab, open_ = [0], []
+
+    def get():
+        lab[0] += 1
+        cands = [lab[0]]
+        if open_ and rng.random() < 0.2:          # where uuid4 is the source: first a collision with an open reader
+            cands = [rng.choice(open_)] * rng.choice([1, 2]) + cands
+        ops.append(["get", hot, tick(), cands])
+        open_.append(lab[0])
+
+    def close():
+        if not open_:
+            return
+        j = {"fifo": 0, "lifo": len(open_) - 1, "random": rng.randrange(len(open_)), "middle": len(open_) // 2,
+             "second": min(1, len(open_) - 1)}[policy]
+        r = open_.pop(j)
+        ops.append(["close", hot, r])
+        if rng.random() < 0.05:
+            ops.append(["close", hot, r])          # a client closing twice
+    jobs = [0]
+    pend = []
+
+    def challenge():
+        c = rng.random()
+        if c < 0.45 or not open_:
+            need = rng.randrange(max(1, cap - size + 1), cap + 1) if cap - size + 1 <= cap else cap
+            ops.append(["add", "big", need, tick()])
+            for _ in range(1 + len(others)):
+                pend.append(jobs[0])
+                jobs[0] += 1
+        elif c < 0.8:
+            ops.append(["purge", hot])
+        else:
+            ops.append(["purge", rng.choice(others + [hot])])
+        for _ in range(rng.choice([0, 1, 3])):
+            if pend and rng.random() < 0.7:
+                j = pend.pop(0)
+                ops.extend([["io", j, rng.random() < 0.05], ["unlink", j], ["cb", j]])
+    for _ in range(rng.choice([2, 3])):
+        get()
+    for _ in range(rng.choice([3, 5, 8, 12])):
+        r = rng.random()
+        if r < 0.45:
+            get()
+        elif r < 0.85:
+            close()
+        else:
+            challenge()
+    if rng.random() < 0.25:
+        tick(big=True)                             # every reader so far is stale now: evicting the key is legitimate
+        if rng.random() < 0.5:
+            get()
+    for _ in range(rng.choice([1, 2, 3])):
+        challenge()
+        if rng.random() < 0.6:
+            close()
+    ops.append(["drain"])
+    ops.append(["add", "big", cap, tick()])
+    ops.append(["drain"])
+    while open_:
+        close()
+        if rng.random() < 0.3:
+            challenge()
+    ops.append(["drain"])
+    lab[0] += 1
+    ops += [["get", hot, tick(), [lab[0]]], ["rseg", hot]]
+    return cap, ops
+
+
+def fault_history(rng):
+    """disk faults at every job step: page files that cannot be written while the segment is still there, page-ins failing after
+    their segment was created, purges between the two halves of a page-out -- with requests of other clients in between.  After
+    every failed job the store has to go on: victim dropped, space returned, lock released, the next patient client granted."""
+    cap = rng.choice([4, 6, 8, 10])
+    nk = rng.choice([2, 3, 4])
+    keys = [f"k{i}" for i in range(nk)]
+    t = [rng.choice([1, 500])]
+
+    def tick(big=False):
+        t[0] += (S.STALE + 3) if big else rng.choice([1, 2])
+        return t[0]
+    ops, sizes, lab = [], {}, [0]
+    room = cap
+    for k in keys:
+        s_ = max(1, min(room, rng.randrange(1, max(2, cap // nk + 2))))
+        sizes[k] = s_
+        room = max(1, room - s_)
+        ops += [["add", k, s_, tick()], ["write", k, S.payload(rng, s_)], ["close", k, None]]
+        r = rng.random()
+        if r < 0.3:
+            lab[0] += 1
+            ops += [["get", k, tick(), [lab[0]]], ["close", k, lab[0]]]
+        elif r < 0.45:
+            lab[0] += 1
+            ops += [["get", k, tick(), [lab[0]]]]       # held; stale after the jump below
+    if rng.random() < 0.3:
+        tick(big=True)
+    pf = rng.choice([0.3, 0.6, 1.0])
+    jid = [0]
+    for _ in range(rng.choice([1, 2, 3])):
+        ops.append(["add", "new", rng.randrange(max(1, cap // 2), cap + 1), tick()])
+        mine = list(range(jid[0], jid[0] + rng.choice([1, 2, nk])))
+        jid[0] = mine[-1] + 1
+        steps = []
+        for j in mine:
+            steps.append([["io", j, rng.random() < pf], ["unlink", j], ["cb", j]])
+        while any(steps):
+            st = rng.choice([x for x in steps if x])
+            ops.append(st.pop(0))
+            r = rng.random()
+            if r < 0.12:
+                ops.append(["purge", rng.choice(keys)])
+            elif r < 0.2:
+                lab[0] += 1
+                ops.append(["get", rng.choice(keys), tick(), [lab[0]]])
+            elif r < 0.26:
+                ops.append(["add", "new", rng.randrange(1, cap + 1), tick()])
+        if rng.random() < 0.5:
+            ops.append(["drain"])
+    ops.append(["alloc", "new2", S.payload(rng, rng.randrange(1, cap + 1)), 5, 0])
+    # read everything back: page-outs to make room and page-ins, some of them failing (the jobs that really exist: drainf)
+    for k in rng.sample(keys, len(keys)):
+        for _ in range(rng.choice([1, 2, 2, 3])):
+            lab[0] += 1
+            ops.append(["get", k, tick(), [lab[0]]])
+            ops.append(["drainf", rng.randrange(10 ** 6), int(100 * pf * rng.choice([0, 0.5, 1]))])
+        ops.append(["read", k, 3, 0])
+    ops.append(["drain"])
+    return cap, ops
+
+
 def corpus():
     leak = (4, [["add", "A", 4, 10], ["add", "B", 2, 20], ["add", "B", 1, 21], ["write", "A", "01020304"], ["close", "A", None]])
     roundtrip = (4, [["add", "k1", 2, 1], ["write", "k1", "0102"], ["close", "k1", None], ["add", "k2", 2, 2], ["write", "k2", "0304"], ["close", "k2", None],
@@ -371,6 +574,29 @@ def corpus():
     return [leak, roundtrip, purge_read, pressure_read, stale_reader, stale_writer, readd, rewrite]
 
 
+LOCK_HEADER = S.HEADER.replace("Shm.ManagerCheck.", "Shm.ManagerCheck Shm.ManagerLocks.")
+ONE = "pageout_one"
+
+
+def lock_case(d, cap, ops, obs):
+    """(capacity, ops, per op the acquire/release events of Manager.pageout_one seen on the implementation) as a Coq term, when that
+    attribute exists and is a plain lock (else None: nothing to compare)"""
+    if ONE not in d.watched_locks or len(d.lock_marks) != len(ops):
+        return None
+    nm = S.Names()
+    o = S.clist([S.c_op(nm, op) for op in ops])
+    evs, a = [], 0
+    for b in d.lock_marks:
+        evs.append(S.clist(["AcqOne" if k in ("acq", "reacquire") else "RelOne" for n, k in d.lock_log[a:b] if n == ONE and k != "busy"]))
+        a = b
+    return f"(({S.cZ(cap)}, {o},\n    {S.clist(evs)}) : Z * list op * list (list lev))"
+
+
+def executed(ops):
+    """the op list of a run without what the run wrote into it"""
+    return [o[:4] if o[0] == "get" else o[:3] if o[0] == "close" else list(o) for o in ops]
+
+
 def nontrivial(obs, w):
     """a granted read after a disk round trip, or a purge delayed by a reader, or a fresh reader that survived an eviction round"""
     return w.stats["gets_after_disk_roundtrip"] > 0 or w.stats["purge_delayed"] > 0 or (w.stats["evictions"] > 0 and w.stats["fresh_reader_protected"] > 0)
@@ -384,7 +610,9 @@ def run(ctx, res):
     res.rule = ("an op list (writes, reads held open incl. beyond the 15-minute staleness window, closes, purges during reads, memory pressure, both halves "
                 "of page-out/page-in jobs in any order incl. injected disk faults, malformed requests, followed by the patient-client epilogue) counts as "
                 "non-trivial when a read was granted after the dataset went to disk and back, or a purge was delayed by a reader, or an eviction round ran "
-                "while a fresh reader held a dataset; distinct = distinct (capacity, op list)")
+                "while a fresh reader held a dataset; distinct = distinct (capacity, op list).  Streams overlap (3+ overlapping readers of one key closed "
+                "out of order, then pressure/purge) and faults (failing page-outs with the segment present, failing page-ins) are counted in the histogram "
+                "(histories-with-three_overlapping_readers, -closed_out_of_order, event:*)")
     streams = [("corpus", c, o) for c, o in corpus()]
     rng = ctx.sub_rng("readers")
     for _ in range(ctx.n(500, 12000)):
@@ -404,14 +632,31 @@ def run(ctx, res):
     rng = ctx.sub_rng("midpurge")
     for _ in range(ctx.n(150, 4000)):
         streams.append(("midpurge",) + S.midpurge_history(rng))
-    terms, metas = [], []
+    rng = ctx.sub_rng("overlap")
+    for _ in range(ctx.n(300, 6000)):
+        streams.append(("overlap",) + overlap_history(rng))
+    rng = ctx.sub_rng("faults")
+    for _ in range(ctx.n(200, 4000)):
+        streams.append(("faults",) + fault_history(rng))
+    terms, metas, lock_terms = [], [], []
     erng = ctx.sub_rng("epilogue")
+    hangs = 0
     with S.patched() as env:
+        for name, present in env.seams.items():
+            res.count(f"seam:{name}:{'used' if present else 'absent'}")
         for kind, cap, ops0 in streams:
+            if hangs >= 3:
+                res.count("not-run:after-three-hangs")
+                continue
             d, ops, obs, crash, bad, w, ep = evaluate(env, cap, ops0, erng)
             res.evaluations += 1
             res.count(f"stream:{kind}")
-            case = {"capacity": cap, "ops": ops0, "stream": kind}
+            # the replayable case of a failure is the history as executed (macros expanded, epilogue included)
+            case = {"capacity": cap, "ops": (executed(ops) if bad else ops0), "stream": kind}
+            if crash and crash[0] == "Hang":
+                hangs += 1
+            if d.watched_locks:
+                res.count("locks-watched:" + ",".join(sorted(d.watched_locks)))
             if nontrivial(obs, w):
                 res.nontrivial_keys.add(S.hist_key(cap, ops0))
             for k, v in w.stats.items():
@@ -432,6 +677,10 @@ def run(ctx, res):
             if crash is None and len(obs) == len(ops):
                 terms.append(S.c_case(cap, ops, obs))
                 metas.append(({"capacity": cap, "ops": ops, "stream": kind}, obs))
+                if kind in ("corpus", "faults") or len(terms) % 8 == 0:
+                    lt = lock_case(d, cap, ops, obs)
+                    if lt is not None:
+                        lock_terms.append(lt)
             else:
                 res.count("not-compared:crashed")
         # the witnesses of the _refuted theorems must still fail on the implementation
@@ -442,6 +691,19 @@ def run(ctx, res):
             if not any(b[0] == sig for b in bad):
                 res.disagree(f"the witness of {name} ({sig}) no longer fails on the implementation: the model is out of date",
                              {"capacity": wcap, "ops": wops, "observations": obs})
+    # the lock model (Shm/ManagerLocks.v) against the events seen on Manager.pageout_one.  Which sections a store takes is not part of
+    # the property (only that nothing blocks, which the watchdog decides): a difference is recorded, it is not a verdict
+    if lock_terms:
+        lres, llogs = coq_results("C09", LOCK_HEADER, lock_terms, "check_locks", tag="locks", shard=250)
+        same = sum(1 for r in lres if r is True)
+        res.count("lock-events:histories-compared", len(lres))
+        res.count("lock-events:as-in-the-model", same)
+        if same != len(lres):
+            res.count("lock-events:differ-from-the-model", len(lres) - same)
+            ctx.notes.append(f"the acquire/release events of Manager.pageout_one differ from Shm/ManagerLocks.v in {len(lres) - same} of {len(lres)} "
+                             "histories: the lock model (C09_handlers_never_block) no longer describes this code; hangs are still decided by the watchdog")
+    else:
+        res.count("lock-events:not-observable")
     results, logs = coq_results("C09", S.HEADER, terms, "check_case", tag="hist", shard=250)
     res.corr_checked += len(results)
     for r, (case, obs) in zip(results, metas):
@@ -460,7 +722,8 @@ def search(ctx, res):
     def many():
         rng = ctx.sub_rng("search")
         for i in range(9000):
-            yield [reader_history, S.pressure_history, S.gen_history, S.rewrite_history, S.midpurge_history][i % 5](rng)
+            yield [reader_history, S.pressure_history, S.gen_history, S.rewrite_history, S.midpurge_history, overlap_history,
+                   fault_history][i % 7](rng)
     with S.patched() as env:
         for cap, ops in itertools.chain(first, corpus(), many()):
             d, ops2, obs, crash, bad, w, ep = evaluate(env, cap, ops)
